@@ -112,8 +112,8 @@ def spec_cp(d, conc):
 def _rate_shape(name, layout):
     @harness("C03", "Reaction.rate." + name, functions=[CH + ":Reaction.rate", CH + ":Reaction.rate_expr", CH + ":Reaction.keys"], kind="shape-bounded", samples=25)
     def _(v):
-        subst = ["A", "B", "C", "D", "E"]
-        conc = {k: v.real("c" + k, lo=0, hi=5) for k in subst}
+        subst = ["C", "A", "E", "B", "D"]      # neither alphabetical nor order of appearance
+        conc = {k: v.real("c" + k, lo=-5, hi=5) for k in subst}
         kk = v.real("k", lo=0, hi=9)
         rxn, d = build_reaction(v, "r", layout, kk)
         r = v.call(rxn.rate, conc, substance_keys=subst)
@@ -151,8 +151,8 @@ def _rsys_shape(name, layouts):
     def _(v):
         from chempy.reactionsystem import ReactionSystem
         from chempy.chemistry import Substance
-        subst = ["A", "B", "C", "D", "E"]
-        conc = {k: v.real("c" + k, lo=0, hi=5) for k in subst}
+        subst = ["C", "A", "E", "B", "D"]      # neither alphabetical nor order of appearance
+        conc = {k: v.real("c" + k, lo=-5, hi=5) for k in subst}
         rxns, ds, ks = [], [], []
         for i, lay in enumerate(layouts):
             kk = v.real("k%d" % i, lo=0, hi=9)
@@ -187,8 +187,8 @@ def _array_shape(name, layouts):
         from chempy.reactionsystem import ReactionSystem
         from chempy.chemistry import Substance
         from chempy.kinetics.ode import law_of_mass_action_rates, dCdt_list
-        subst = ["A", "B", "C", "D", "E"]
-        conc = [v.real("c" + k, lo=0, hi=5) for k in subst]
+        subst = ["C", "A", "E", "B", "D"]      # position in the concentration vector != alphabetical rank
+        conc = [v.real("c" + k, lo=-5, hi=5) for k in subst]
         cd = dict(zip(subst, conc))
         rxns, ds, ks = [], [], []
         for i, lay in enumerate(layouts):
@@ -200,6 +200,19 @@ def _array_shape(name, layouts):
         v.prove("law_of_mass_action", SP.conj([v.eq(r, kk * spec_cp(d, cd)) for r, kk, d in zip(rates, ks, ds)]))
         f = v.call(dCdt_list, rsys, rates)
         v.prove("dCdt_list", SP.conj([v.eq(f[i], sum(spec_net(d, k) * kk * spec_cp(d, cd) for d, kk in zip(ds, ks))) for i, k in enumerate(subst)]))
+        # dCdt_list weights ANY rate vector with the net stoichiometry (one entry per substance, in substance order)
+        free = [v.real("rate%d" % i, lo=-9, hi=9) for i in range(len(ds))]
+        g = v.call(dCdt_list, rsys, free)
+        v.prove("dCdt_list_any_rate_vector", len(g) == len(subst) and SP.conj([v.eq(g[i], sum(spec_net(d, k) * rr for d, rr in zip(ds, free))) for i, k in enumerate(subst)]))
+        # the same rates when the constants are wrapped as mass-action expressions, with and without extra variables; a variable that happens to
+        # carry a substance key must not replace the concentration vector
+        from chempy.kinetics.rates import MassAction
+        rxns_ma = [type(r)(dict(r.reac), dict(r.prod), MassAction([kk]), dict(r.inact_reac) or None, dict(r.inact_prod) or None, checks=()) for r, kk in zip(rxns, ks)]
+        rsys_ma = ReactionSystem(rxns_ma, [Substance(k) for k in subst], checks=())
+        other = v.real("unrelated", lo=-9, hi=9)
+        for label, var in (("empty_variables", {}), ("unrelated_variable", {"T": other}), ("variable_named_like_a_substance", {"A": other, "T": other})):
+            rates_ma = list(v.call(law_of_mass_action_rates, conc, rsys_ma, var))
+            v.prove("law_of_mass_action.MassAction_param." + label, SP.conj([v.eq(r, kk * spec_cp(d, cd)) for r, kk, d in zip(rates_ma, ks, ds)]))
         ns = v.call(rsys.net_stoichs)
         v.prove("net_stoichs_matrix", SP.conj([v.eq(ns[ri, si], spec_net(d, k)) for ri, d in enumerate(ds) for si, k in enumerate(subst)]))
         ar = v.call(rsys.active_reac_stoichs)
@@ -251,3 +264,51 @@ def _(v):
     s2 = v.call(rsys.rates, c2)
     v.prove("system_second_call", SP.conj([v.eq(s2[k], spec_net(d, k) * k1 * spec_cp(d, c2)) for k in subst]))
     v.prove("system_first_call", SP.conj([v.eq(s1[k], spec_net(d, k) * k2 * spec_cp(d, c1)) for k in subst]))
+
+
+@harness("C03", "system_without_reactions", functions=[RS + ":ReactionSystem.rates", "chempy.kinetics.ode:dCdt_list"], kind="shape-bounded", samples=10)
+def _(v):
+    """'any number of reactions' includes none: the sum over no contributions is zero for every substance, and a stirred tank is a pure mixing tank"""
+    from chempy.reactionsystem import ReactionSystem
+    from chempy.chemistry import Substance
+    from chempy.kinetics.ode import dCdt_list
+    subst = ["B", "A"]
+    rsys = ReactionSystem([], [Substance(k) for k in subst], checks=())
+    conc = {k: v.real("c" + k, lo=-5, hi=5) for k in subst}
+    r = v.call(rsys.rates, conc)
+    v.prove("every_substance_has_rate_zero", set(r.keys()) == set(subst) and SP.conj([v.eq(r[k], 0) for k in subst]))
+    F = v.real("F", lo=0, hi=3)
+    feed = {k: v.real("feed" + k, lo=0, hi=5) for k in subst}
+    r3 = v.call(rsys.rates, dict(conc, fr=F, **{"fc_" + k: feed[k] for k in subst}), cstr_fr_fc=("fr", {k: "fc_" + k for k in subst}))
+    v.prove("pure_mixing_tank", SP.conj([v.eq(r3[k], F * (feed[k] - conc[k])) for k in subst]))
+    v.prove("array_form", list(v.call(dCdt_list, rsys, [])) == [0, 0])
+
+
+@harness("C03", "array_valued_concentrations", functions=[CH + ":Reaction.rate", RS + ":ReactionSystem.rates", "chempy.kinetics.rates:MassAction.active_conc_prod"], kind="data")
+def _(v):
+    """concentrations given as numpy arrays (a batch of states) or as quantities: every substance's rate is still the sum of ITS contributions
+    (no result object shared between substances), the caller's variables are left as they were, and a second evaluation agrees"""
+    import numpy as np
+    from chempy.chemistry import Reaction, Substance
+    from chempy.reactionsystem import ReactionSystem
+    from contracts._purity import prove_pure, deep_equal
+    rsys = ReactionSystem([Reaction({"A": 1}, {"B": 1, "C": 1}, 2.0), Reaction({"B": 1}, {"D": 1}, 3.0), Reaction({"A": 1, "B": 2}, {"C": 1}, 5.0, inact_reac={"D": 1})],
+                          [Substance(k) for k in "ABCD"], checks=())
+    mk = lambda: (({"A": np.array([1.0, 2.0, 3.0]), "B": np.array([2.0, 3.0, 5.0]), "C": np.array([0.5, 0.25, 4.0]), "D": np.array([1.0, 1.0, 2.0])},), {})
+    r = prove_pure(v, "system", rsys.rates, mk)
+    c = mk()[0][0]
+    r0, r1, r2 = 2.0 * c["A"], 3.0 * c["B"], 5.0 * c["A"] * c["B"] ** 2
+    want = {"A": -r0 - r2, "B": r0 - r1 - 2 * r2, "C": r0 + r2, "D": r1 - r2}
+    v.prove("system.each_substance_is_the_sum_of_its_own_contributions", all(np.allclose(r[k], want[k], rtol=1e-14, atol=0) for k in "ABCD"), detail=repr(r))
+    rev = ReactionSystem(rsys.rxns[::-1], [Substance(k) for k in "ABCD"], checks=())
+    rr = rev.rates(mk()[0][0])
+    v.prove("system.independent_of_reaction_order", all(np.allclose(rr[k], want[k], rtol=1e-14, atol=0) for k in "ABCD"), detail=repr(rr))
+    prove_pure(v, "single_reaction", rsys.rxns[2].rate, mk)
+    try:
+        from chempy.units import default_units as u, to_unitless
+        mq = lambda: (({"A": 1.0 * u.molar, "B": 2.0 * u.molar, "C": 0.5 * u.molar, "D": 1.0 * u.molar},), {})
+        rq_sys = ReactionSystem([Reaction({"A": 1}, {"B": 1, "C": 1}, 2.0 / u.second), Reaction({"B": 1}, {"D": 1}, 3.0 / u.second)], [Substance(k) for k in "ABCD"], checks=())
+        rq = prove_pure(v, "quantities", rq_sys.rates, mq, materialise=lambda d: {k: float(to_unitless(x, u.molar / u.second)) for k, x in d.items()})
+        v.prove("quantities.values", deep_equal(rq, {"A": -2.0, "B": 2.0 - 6.0, "C": 2.0, "D": 6.0}), detail=repr(rq))
+    except ImportError:
+        pass
